@@ -25,7 +25,7 @@ func isTimeNow(info *types.Info, e ast.Expr) bool {
 func c19(c *Ctx) {
 	r := c.R
 	r.Explanation = "Partial: the wiring and shape of the start-up time check. (Z1) every way main reaches raft.NewRaft on the non-bootstrapping branch passes a successful SynchronizedWithNetwork (or the explicit -disable_timesafeguard bypass), every way to joinMaster passes a successful SynchronizedWithMasterAndNetwork; (Z2) synchronizedWithNetwork returns nil only when timeInSync held or the flag is set; (Z3) unanswered peers are filtered out, and a failed measurement leaves its slot zero; (Z4) the refusing comparison is drift >= ElectionTimeout and raft's election/heartbeat/lease timeouts are that same constant; (Z5) the bound depends on all three measured instants, is the absolute local/remote difference plus the round trip (End-Start, added), and Start/End bracket the request. The arithmetic soundness of the bound for all delays is a numeric fact and is not decided."
-	r.Rules = []string{"C19.Z1 check on every way in", "C19.Z2 only the flag bypasses", "C19.Z3 silent peers ignored", "C19.Z4 threshold identity", "C19.Z5 bound shape and dependence"}
+	r.Rules = []string{"C19.Z1 check on every way in", "C19.Z2 only the flag bypasses", "C19.Z3 silent peers ignored", "C19.Z4 threshold identity", "C19.Z5 bound shape and dependence", "C19.Z6 error discipline"}
 
 	mainFn := c.MustFunc("main.main")
 	swn := c.MustFunc("timesafeguard.synchronizedWithNetwork")
@@ -362,6 +362,203 @@ func c19(c *Ctx) {
 					return true
 				})
 			}
+		}
+	}
+	// Z3j: every answered measurement reaches the checked set: in synchronizedWithNetwork, from the edge on which a
+	// measurement is found non-empty, the next iteration is reached only through the append to the checked slice
+	if swn != nil && swn.Body() != nil {
+		info := swn.Info()
+		g := c.Graph(swn)
+		n := 0
+		ast.Inspect(swn.Body(), func(nd ast.Node) bool {
+			rs, ok := nd.(*ast.RangeStmt)
+			if !ok {
+				return true
+			}
+			head := -1
+			for _, v := range g.V {
+				for _, e := range v.Succ {
+					if e.Range == rs {
+						head = v.ID
+					}
+				}
+			}
+			isAppend := func(x int) bool {
+				as, ok := g.V[x].Node.(*ast.AssignStmt)
+				if !ok || len(as.Rhs) != 1 {
+					return false
+				}
+				app, ok := ast.Unparen(as.Rhs[0]).(*ast.CallExpr)
+				return ok && astx.Builtin(info, app) == "append"
+			}
+			for _, v := range g.V {
+				for _, e := range v.Succ {
+					if e.Cond == nil || e.Tag != nil || !(rs.Body.Pos() <= e.Cond.Pos() && e.Cond.End() <= rs.Body.End()) {
+						continue
+					}
+					answered := false
+					for _, fct := range cfgx.ExpandCond(e.Cond, e.Val) {
+						if cc, isC := ast.Unparen(fct.Expr).(*ast.CallExpr); isC && !fct.Val {
+							if fn := astx.Callee(info, cc); fn != nil && fname(fn) == "IsZero" {
+								answered = true
+							}
+						}
+					}
+					if !answered || head < 0 {
+						continue
+					}
+					n++
+					skipped := !isAppend(e.To) && (e.To == head || g.Reach(e.To, isAppend, nil)[head])
+					r.Check(!skipped, "C19.Z3", swn.Name(), "every answered measurement is put into the checked set", c.P.Pos(e.Cond.Pos()), "every path from the 'non-empty measurement' edge to the next iteration passes the append",
+						"a peer that answered is not added to the measurements that are compared with the tolerance: its clock is never judged and a skewed network is joined")
+				}
+			}
+			return true
+		})
+		if n == 0 {
+			r.Break("C19.Z3: no 'non-empty measurement' edge found in synchronizedWithNetwork")
+		}
+		// Z4b: the peers reported as offending are those the refusal is based on: same predicate as timeInSync
+		for _, v := range g.Nodes() {
+			as, ok := v.Node.(*ast.AssignStmt)
+			if !ok || len(as.Rhs) != 1 {
+				continue
+			}
+			app, ok := ast.Unparen(as.Rhs[0]).(*ast.CallExpr)
+			if !ok || astx.Builtin(info, app) != "append" || len(app.Args) != 2 {
+				continue
+			}
+			if b, ok := info.TypeOf(app.Args[1]).Underlying().(*types.Basic); !ok || b.Kind() != types.String {
+				continue
+			}
+			okPred := false
+			for _, f := range g.FactsAt(v.ID) {
+				be, ok := ast.Unparen(f.Expr).(*ast.BinaryExpr)
+				if !ok || f.Tag != nil {
+					continue
+				}
+				if cc, ok := ast.Unparen(be.X).(*ast.CallExpr); ok {
+					if fn := astx.Callee(info, cc); fn != nil && fname(fn) == "worstCaseDrift" && refersTo(info, be.Y, pathTimesafe, "ElectionTimeout") {
+						if (be.Op == token.GEQ && f.Val) || (be.Op == token.LSS && !f.Val) {
+							okPred = true
+						}
+					}
+				}
+			}
+			r.Check(okPred, "C19.Z4", swn.Name(), "the peers reported are those whose bound reaches the election timeout", c.P.Pos(as.Pos()), "dominated by worstCaseDrift() >= ElectionTimeout",
+				"the list of offending peers in the refusal is built with another test than the refusal itself: the operator is shown the wrong (or no) peers")
+		}
+	}
+	// Z3k: in the entry points, a peer is left out of the collection only for being this node or the node already measured:
+	// the append to the list handed to collectTime sits under unit tests `peer != <parameter>` only
+	if ct := c.P.Func("timesafeguard.collectTime"); ct != nil {
+		n := 0
+		for _, fi := range c.P.FuncsIn("timesafeguard") {
+			if fi.Body() == nil || fi.Obj == nil || !fi.Obj.Exported() {
+				continue
+			}
+			info := fi.Info()
+			g := c.Graph(fi)
+			var params []types.Object
+			for _, fld := range fi.FuncType().Params.List {
+				for _, nm := range fld.Names {
+					params = append(params, info.Defs[nm])
+				}
+			}
+			for _, call := range callsIn(fi, func(fn *types.Func, _ *ast.CallExpr) bool { return fn == ct.Obj }) {
+				if len(call.Args) < 1 {
+					continue
+				}
+				lid, ok := ast.Unparen(call.Args[0]).(*ast.Ident)
+				if !ok {
+					continue
+				}
+				lo := astx.Obj(info, lid)
+				nApp := 0
+				for _, v := range g.Nodes() {
+					as, ok := v.Node.(*ast.AssignStmt)
+					if !ok || len(as.Lhs) != 1 || len(as.Rhs) != 1 {
+						continue
+					}
+					id, ok := as.Lhs[0].(*ast.Ident)
+					if !ok || astx.Obj(info, id) != lo {
+						continue
+					}
+					app, ok := ast.Unparen(as.Rhs[0]).(*ast.CallExpr)
+					if !ok || astx.Builtin(info, app) != "append" {
+						continue
+					}
+					nApp++
+					n++
+					okF := true
+					// the tests inside the loop over the peers
+					var loopBody *ast.BlockStmt
+					ast.Inspect(fi.Body(), func(nd ast.Node) bool {
+						if rs, ok := nd.(*ast.RangeStmt); ok && rs.Body.Pos() <= as.Pos() && as.End() <= rs.Body.End() {
+							loopBody = rs.Body
+						}
+						return true
+					})
+					var cls [][]lit
+					for _, u := range g.V {
+						if len(u.Succ) != 2 || u.Succ[0].Cond == nil || u.Succ[0].To == u.Succ[1].To {
+							continue
+						}
+						for _, e := range u.Succ {
+							if e.Tag == nil && loopBody != nil && loopBody.Pos() <= e.Cond.Pos() && e.Cond.End() <= loopBody.End() && g.EdgeDominates(e, v.ID) {
+								cls = append(cls, c.clausesOf(info, fi.Node(), e.Cond, e.Val, 0)...)
+							}
+						}
+					}
+					if loopBody == nil {
+						okF = false
+					}
+					for _, cl := range cls {
+						unit := len(cl) == 1
+						if unit {
+							be, ok := ast.Unparen(cl[0].E).(*ast.BinaryExpr)
+							isParam := func(e ast.Expr) bool {
+								pid, ok := ast.Unparen(e).(*ast.Ident)
+								if !ok {
+									return false
+								}
+								for _, p := range params {
+									if astx.Obj(info, pid) == p {
+										return true
+									}
+								}
+								return false
+							}
+							if !ok || !((be.Op == token.NEQ) == cl[0].Pos && (be.Op == token.NEQ || be.Op == token.EQL)) || !(isParam(be.X) || isParam(be.Y)) {
+								unit = false
+							}
+						}
+						if !unit {
+							okF = false
+						}
+					}
+					r.Check(okF, "C19.Z3", fi.Name(), "a peer is left out of the collection only for being this node or the join target", c.P.Pos(as.Pos()), "append under unit tests `peer != <parameter>` only",
+						"the list of peers to measure is filtered by something else than 'not this node' / 'not the node already measured' (test inverted or widened): peers that should be measured are never asked, and a skewed network is joined")
+				}
+				r.Check(nApp >= 1, "C19.Z3", fi.Name(), "the list handed to collectTime is filled from the peers", c.P.Pos(call.Pos()), "an append to it exists",
+					"the list of peers to measure is never filled: no peer's clock is looked at")
+			}
+		}
+		if n < 2 {
+			r.Break("C19.Z3: only %d appends to collection lists found in the entry points", n)
+		}
+	}
+	c.errorDispositions("C19.Z6", []string{"timesafeguard"}, nil, "a failed measurement is taken for a good one, or the join target's failure is not fatal")
+	// Z6: error discipline of the package
+	{
+		nErr := 0
+		for _, fi := range c.P.FuncsIn("timesafeguard") {
+			if fi.Body() != nil {
+				nErr += c.errorDiscipline("C19.Z6", fi, "a failed measurement is taken for a good one, or the join target's failure is not fatal")
+			}
+		}
+		if nErr < 4 {
+			r.Break("C19.Z6: only %d error definitions found in timesafeguard", nErr)
 		}
 	}
 	// Z5b: the answering side reports its clock as it is: Status.CurrentTime is time.Now() itself (not rounded or
